@@ -71,6 +71,12 @@ chk("C11", "enum",
     "Reading D6; node types and depth bounded.",
     "DESIGN.md §3 C11")
 
+chk("C16", "enum",
+    "bounded-exhaustive enumeration of flattened positions x entry shapes and of addressing lists (all sequences up to length L over 11 entries, duplicates included) on the implementation against a per-entry reference flatten",
+    "Every single-item flattened position x 13 entry shapes (+ lists of two) and every addressing list x every entry sequence of length <= 3 (quick) / 4 (thorough) on 9 host/function combinations, hosts otherwise fully populated with embedded objects; per-entry reference (D8), other properties unchanged, no invented IRI, idempotence.",
+    "Reading D8 (no nil entries; duplicates kept or first-mention kept; embedded collections judged by the global clauses).",
+    "DESIGN.md §3 C16")
+
 manifest = {
     "version": 1,
     "setup_cmd": "./setup.sh",
